@@ -81,7 +81,7 @@ SETTERS = ["trial.suggest_float(new)", "trial.suggest_int(new)", "trial.suggest_
            "study.tell(trial)", "study.tell(trial, PRUNED)", "study.set_user_attr(same key)", "study.set_user_attr(new key)",
            "study.set_system_attr", "study.enqueue_trial", "study.add_trial", "study.ask", "storage.set_trial_param",
            "storage.set_trial_user_attr", "storage.set_trial_intermediate_value", "storage.set_trial_state_values(FAIL)",
-           "other.set_user_attr", "other.suggest_float", "study.ask+suggest(queued)"]
+           "other.set_user_attr", "other.suggest_float", "study.ask+suggest(queued)", "other.report(first)"]
 
 
 def run_setter(name, study, trial, other, i):
@@ -138,6 +138,8 @@ def run_setter(name, study, trial, other, i):
         other.set_user_attr("u", "other")
     elif name == "other.suggest_float":
         other.suggest_float("x", 0, 1)
+    elif name == "other.report(first)":
+        other.report(sx.sym_float(f"orep{i}", ("finite", "nan")), i)       # the first report of a trial that has none yet
     else:
         raise KeyError(name)
 
@@ -212,6 +214,8 @@ def get_objects(g, storage, study, trial, other):
             return [trial.system_attrs]
     if g == "frozen-from-tell":
         return [study.tell(other, sx.sym_real("other_v"))]
+    if g == "frozen-from-tell(skip_if_finished) on a finished trial":
+        return [study.tell(0, 7.0, skip_if_finished=True)]
     raise KeyError(g)
 
 
@@ -250,6 +254,7 @@ def make_deepcopy_body(backends):
         kind = sx.choose(backends, "backend")
         storage, study, trial, other = seed(kind, False)
         g = sx.choose(["study.best_trial(constrained fallback)", "storage.get_all_studies", "get_all_study_summaries",
+                       "frozen-from-tell(skip_if_finished) on a finished trial",
                        "study.trials", "study.get_trials(deepcopy=True)", "study.best_trial", "study.user_attrs", "trial.params",
                        "trial.user_attrs", "trial.distributions", "storage.get_all_trials(deepcopy=True)", "study.best_trials",
                        "study.get_trials(states=(WAITING,))", "study.get_trials(states=[WAITING, RUNNING])",
